@@ -4,7 +4,7 @@ import random
 
 import numpy as np
 
-from ..vlib import tlc, util
+from ..vlib import build, tlc, util
 from ..vlib.report import MachineryError, Report
 
 util.ensure_repo_importable()
@@ -197,6 +197,51 @@ def enum_cases():
     return out
 
 
+def coarse_map_cases(rep, tier):
+    """'coarse-graining maps that violate their rules': the maps MC_CoarseGrain enumerates for its small grids, validity decided
+    by CoarseGrain.ValidMap; every invalid one must be refused by each entry point, the valid twins accepted."""
+    import random as _random
+    from strengths import simulate
+    from strengths.coarsegrain import check_index_map_validity, coarsegrain_grid
+    from . import c16
+    r = tlc.run("MC_CoarseGrain", timeout=3000, heap="8g")
+    rep.add_tlc("MC_CoarseGrain (index maps of small grids, validity by CoarseGrain.ValidMap)", r)
+    if not r.ok:
+        raise MachineryError("TLC failed on MC_CoarseGrain: %s\n%s" % (r.error, r.tail(20)))
+    maps = [json.loads(tlc.unquote_tla_json(l)) for l in r.out.splitlines() if l.startswith('<<"PROGRAM"')]
+    rng = _random.Random(util.seed() * 59 + 20)
+    invalid = [c for c in maps if not c["valid"]]
+    valid = [c for c in maps if c["valid"]]
+    if len(invalid) < 500 or len(valid) < 500:
+        raise MachineryError("MC_CoarseGrain emitted %d invalid / %d valid maps" % (len(invalid), len(valid)))
+    n = 3000 if tier == "quick" else len(invalid)
+    lib = build.load("plain")
+    stats = {"invalid_maps": 0, "valid_twins": 0, "invalid_with_dropped_cell_first": 0}
+    for c in rng.sample(invalid, min(n, len(invalid))) + rng.sample(valid, min(n // 4, len(valid))):
+        usys = UnitsSystem()
+        system = c16.build_system(c, usys, 1.0)
+        imap = [int(v) for v in c["map"]]
+        rep.case(["coarse-map", c["shape"], c["env"], imap])
+        calls = {"check_index_map_validity": lambda: check_index_map_validity(imap, system.space),
+                 "coarsegrain_grid": lambda: coarsegrain_grid(system.space, imap),
+                 "coarsegrain_system": lambda: coarsegrain_system(system, imap)}
+        if stats["invalid_maps"] % 25 == 0:
+            calls["simulate(cgmap=)"] = lambda: simulate(system, [0, 0.01], engine=build.make_engine("euler", lib=lib), time_step=0.005, cgmap=imap)
+        bad = [name for name, fn in calls.items() if raises(fn)[0] == c["valid"]]
+        if c["valid"]:
+            stats["valid_twins"] += 1
+        else:
+            stats["invalid_maps"] += 1
+            if imap and imap[0] == -1:
+                stats["invalid_with_dropped_cell_first"] += 1
+        if bad:
+            kind = "mixes-environments" if (not c["valid"] and len(imap) == len(c["env"]) and all(v >= -1 for v in imap)
+                                            and set(range(max(imap) + 1)) <= set(imap)) else "form"
+            rep.violation("coarse-graining-map", "invalid:coarse-graining-map:%s" % ("rejected-valid" if c["valid"] else "accepted:" + kind),
+                          {"shape": c["shape"], "env": c["env"], "map": imap, "calls": bad})
+    rep.extra["coarse_map_cases"] = stats
+
+
 def run(tier, selftest=False, only=None):
     rep = Report(PROP, tier)
     rep.rule = ("cases are enumerated by MC_Invalid.tla from the complements of the validity predicates of the other modules "
@@ -262,6 +307,7 @@ def run(tier, selftest=False, only=None):
         got, exc = raises(fn)
         if got == ok:
             rep.violation("vocabulary", "invalid:%s:%s" % (cl, "accepted" if not ok else "rejected-valid"), {"value": v, "exc": exc})
+    coarse_map_cases(rep, tier)
     rep.traces = len(cases)
     rep.sample(cases[10])
     rep.sample([c for c in cases if c["c"]["class"] == "position"][40])
